@@ -85,8 +85,8 @@ func genC13(t *rapid.T) C13Case {
 			// rounding position exactly at (or just above) the leading digit of a value that fills its precision:
 			// 5, 50..0d, 49..9d, 51, 949, 95 ... printed with 'f' and as many fractional digits as put the
 			// position there
-			zl := strings.Repeat("0", rapid.IntRange(0, 25).Draw(t, "lt.z"))
-			nl := strings.Repeat("9", rapid.IntRange(0, 25).Draw(t, "lt.n"))
+			zl := strings.Repeat("0", rapid.SampledFrom([]int{0, 1, 2, 5, 16, 17, 18, 19, 31, 32, 33, 34, 36, 37, 38, 55, 56, 57, 80}).Draw(t, "lt.z"))
+			nl := strings.Repeat("9", rapid.SampledFrom([]int{0, 1, 2, 5, 16, 17, 18, 19, 31, 32, 33, 34, 36, 37, 38, 55, 56, 57, 80}).Draw(t, "lt.n"))
 			d := string(byte('1' + rapid.IntRange(0, 8).Draw(t, "lt.d")))
 			dig := rapid.SampledFrom([]string{"5", "5" + zl + d, "4" + nl + d, "51", "49", "9" + nl + "5", "95", "5" + zl + "5", "4" + nl + "9" + d}).Draw(t, "lt.dig")
 			c.X = h.Spec{F: "f", D: strings.TrimRight(dig, "0"), E: int64(rapid.IntRange(-30, 3).Draw(t, "lt.e")), Neg: rapid.Bool().Draw(t, "lt.neg"), M: h.GenMode(t, "lt.m")}
